@@ -65,6 +65,11 @@ class World:
         self.connect_hook = None    # optional callable(world, sock, addr) for gating
         self.max_conn = 1500
         self.runaway = False
+        self.sched = None           # optional harness.sched.Scheduler: worker threads stop at each network operation
+
+    def sched_point(self, op):
+        if self.sched is not None:
+            self.sched.point(op)
 
     def log(self, **ev):
         with self.lock:
@@ -74,6 +79,7 @@ class World:
 
     # -- resolver --------------------------------------------------------
     def getaddrinfo(self, host, port, family=0, type=0, proto=0, flags=0):
+        self.sched_point('resolve')
         ans = None
         if host in self.resolver:
             ans = self.resolver[host]
@@ -275,6 +281,7 @@ class FakeSock:
         return True
 
     def connect(self, addr):
+        self.world.sched_point('connect')
         if isinstance(self.world.servers.get((addr[0], addr[1])), TimeoutServer):
             self.world.nconn += 1
             self.n = self.world.nconn
@@ -285,11 +292,13 @@ class FakeSock:
             raise ConnectionRefusedError(errno.ECONNREFUSED, 'Connection refused')
 
     def connect_ex(self, addr):
+        self.world.sched_point('connect')
         if not self._do_connect(addr):
             return errno.ECONNREFUSED
         return 0 if self.blocking else errno.EINPROGRESS
 
     def send(self, data):
+        self.world.sched_point('send')
         if self.state != 'connected' or self.closed:
             raise BrokenPipeError(errno.EPIPE, 'Broken pipe')
         data = bytes(data)
@@ -299,6 +308,7 @@ class FakeSock:
     sendall = send
 
     def recv(self, size, flags=0):
+        self.world.sched_point('recv')
         if self.state != 'connected' or self.closed:
             raise OSError(errno.ENOTCONN, 'Transport endpoint is not connected')
         w = self.world
